@@ -8,6 +8,11 @@ ids = [p["id"] for p in props]
 HOOK_COMMITS = ["332865e1b", "bf49db00e", "0b99e4fc0", "68bfb6d5a"]
 
 CHECKS = {
+ "C01": dict(
+   level="exploration", design="§4 C01",
+   technique="runtime monitoring: reference-model oracle (naive SQL interpreter on the generator's AST) over executions of generated composed queries under a deterministic controlled scheduler with yields; outcome-class monitor",
+   text="Random databases x type-directed random composed SELECTs (joins, grouping sets, DISTINCT, UNION, ORDER BY/LIMIT, CTEs, derived tables, LATERAL, scalar/EXISTS/IN/ANY/ALL subqueries) are executed by the real engine (random partitions 1-8, batch sizes 1-2048, random schedules) and every result is compared as a bag / ordered sequence / admissible slice with a reference interpreter; engine errors on statements the model accepts are violations. Held on the sampled executions only. Query shapes that run into recorded defects are skipped (counted per finding) and each recorded defect is re-checked on a fixed case.",
+   note="Trusts vf/refsql.py (cross-checked against SQLite in ./check setup), the typed value encoding of vdrive, and the avoid rules in vf/avoid.py being no wider than the recorded defects."),
  "C12": dict(
    level="exploration", design="§4 C12",
    technique="runtime monitoring: exact-arithmetic oracle (Python int/Fraction) over engine executions; outcome-class monitor (value/error/panic/process death) with journal attribution",
